@@ -242,6 +242,39 @@ def make_binio(name, consts):
     return Unit(name, binio_fns(), "contracts/binary_io.h", "lemmas/binary_io.c")
 
 
+# ---------------------------------------------------------------- array backend serialisation
+ARRAY_IO_SUBST = IO_SUBST + [
+    (r"\bIO_MAGIC_HEADER\b", "verif_tag_array_obj", 1, True),
+    (r"(?s)(?:utility::)?read_binary\s*<\s*std::decay_t\s*<\s*decltype\s*\(\s*m_size\s*\)\s*>\s*>\s*\(", "read_binary_u64(", 0, True),
+    (r"(?s)(?:utility::)?read_binary\s*<\s*__typeof__\s*\(\s*m_size\s*\)\s*>\s*\(", "read_binary_u64(", 0, True),
+    (r"\bauto\s+size\b", "uint64_t size", 0, True),
+    (r"(?s)std::unique_ptr\s*<\s*vector_t\s*\[\s*\]\s*>\s*(\w+)\s*=\s*std::make_unique\s*<\s*vector_t\s*\[\s*\]\s*>\s*\(", r"OUT_VEC_T *\1 = verif_make_unique_array(", 0, True),
+    (r"(?s)using\s+scalar_t\s*=\s*typename\s+_output_vector_t::type\s*;", "/* using scalar_t = OUT_SCALAR_T */", 0, True),
+    (r"\bscalar_t\b", "OUT_SCALAR_T", 0, True),
+    (r"typename\s+_output_vector_t::type", "OUT_SCALAR_T", 0, True),
+    (r"_output_vector_t::size", "DIMS_OUT", 0, True),
+    (r"(?s)owning_data_t\s*\(\s*(\w+)\s*,\s*std::move\s*\(\s*(\w+)\s*\)\s*\)", r"verif_array_own_ctor(\1, \2)", 0, True),
+    (r"(?s)std::\s*is_same_v\s*<\s*OUT_SCALAR_T\s*,\s*float\s*>", "(sizeof(OUT_SCALAR_T) == 4)", 0, True),
+    (r"(?s)std::\s*is_same_v\s*<\s*OUT_SCALAR_T\s*,\s*double\s*>", "(sizeof(OUT_SCALAR_T) == 8)", 0, True),
+]
+
+
+def array_io_fns():
+    fns = binio_fns()
+    fns.append(Fn("array_read_binary", ARRAYB, ["struct array", "struct owning_data_t"], "read_binary",
+                  ret="ARRAY_OWN_T", ptypes=["VERIF_ISTREAM *"], subst=ARRAY_IO_SUBST, arrays2=["ptr"],
+                  throws=True, propagate=MAY_THROW, dummy_ret="((ARRAY_OWN_T){0, 0})",
+                  must={"R9_throw": 2, "R14_propagate": 4}))
+    fns.append(Fn("array_write_binary", ARRAYB, ["struct array", "struct owning_data_t"], "write_binary",
+                  ret="void", ptypes=["VERIF_OSTREAM *", "const ARRAY_OWN_T *"], subst=ARRAY_IO_SUBST,
+                  refparams=["o"], arrays2=["m_ptr"], throws=True, dummy_ret="", must={"R6_if_constexpr": 2}))
+    return fns
+
+
+def make_array_io(name, consts):
+    return Unit(name, array_io_fns(), "contracts/array_io.h", "lemmas/array_io.c")
+
+
 def get_unit(name, consts=None):
     """name is 'base' or 'base@k=v,k=v' for units whose extraction depends on template arguments."""
     if name in UNITS:
@@ -260,3 +293,4 @@ FACTORIES["clamp"] = make_clamp
 FACTORIES["backup"] = make_backup
 FACTORIES["nn"] = make_nn
 FACTORIES["binary_io"] = make_binio
+FACTORIES["array_io"] = make_array_io
